@@ -19,6 +19,8 @@ def shift(ap, k):
     for _, n in projects.walk(ap["resources"]):
         if n.get("leaves"):
             n["leaves"] = [(a + d, None if b is None else b + d, kind) for a, b, kind in n["leaves"]]
+        if n.get("bookings"):
+            n["bookings"] = [(a + d, mins, txt) for a, mins, txt in n["bookings"]]
     for _, n in projects.walk(ap["tasks"]):
         for key in ("start", "end"):
             if n.get(key) is not None:
